@@ -3,6 +3,7 @@ package ana
 import (
 	"fmt"
 	"math/big"
+	"go/types"
 	"strconv"
 	"strings"
 
@@ -358,23 +359,66 @@ func expandCallTerm(p *Prog, call *Term) []*Term {
 	for i, prm := range h.Params {
 		hb.Bind[prm] = call.Args[i]
 	}
-	var ret *Exit
+	var rets []Exit
 	for _, e := range Exits(h) {
-		if e.Panic {
-			continue
+		if !e.Panic {
+			rets = append(rets, e)
 		}
-		if ret != nil {
-			return nil
-		}
-		e := e
-		ret = &e
 	}
-	if ret == nil {
+	if len(rets) == 0 {
 		return nil
 	}
-	var out []*Term
-	for _, r := range ret.Results {
-		out = append(out, hb.Of(r, ret.Instr))
+	nres := len(rets[0].Results)
+	if len(rets) == 1 {
+		var out []*Term
+		for _, r := range rets[0].Results {
+			out = append(out, hb.Of(r, rets[0].Instr))
+		}
+		return out
+	}
+	// several exits: a (values…, error) helper. The value results are those of the single exit whose error is nil
+	// (callers use them under err == nil); the error result is the common term of the failing exits (used under err != nil).
+	errIdx := -1
+	for k := 0; k < nres; k++ {
+		if types.Identical(h.Signature.Results().At(k).Type(), types.Universe.Lookup("error").Type()) {
+			errIdx = k
+		}
+	}
+	if errIdx < 0 {
+		return nil
+	}
+	var succ *Exit
+	var failTerm *Term
+	failSame := true
+	for i := range rets {
+		e := rets[i]
+		et := hb.Of(e.Results[errIdx], e.Instr)
+		if et.Op == "nil" {
+			if succ != nil {
+				return nil
+			}
+			succ = &rets[i]
+			continue
+		}
+		if failTerm != nil && failTerm.String() != et.String() {
+			failSame = false
+		}
+		failTerm = et
+	}
+	if succ == nil {
+		return nil
+	}
+	out := make([]*Term, nres)
+	for k := 0; k < nres; k++ {
+		if k == errIdx {
+			if failSame && failTerm != nil {
+				out[k] = failTerm
+			} else {
+				out[k] = &Term{Op: "ext", Idx: k, V: nil, Args: []*Term{call}}
+			}
+			continue
+		}
+		out[k] = hb.Of(succ.Results[k], succ.Instr)
 	}
 	return out
 }
